@@ -127,6 +127,11 @@ func (f *ruleFactory) CreateRule(version, srcID string, ruleConfig config2.Rule)
 		return nil, err
 	}
 
+	// the request host has to match any one of the configured host expressions
+	if hosts, ok := hm.(compositeMatcher); ok {
+		hm = anyOfMatcher(hosts)
+	}
+
 	sm := schemeMatcher(ruleConfig.Matcher.Scheme)
 
 	for _, rc := range ruleConfig.Matcher.Routes {
